@@ -36,6 +36,10 @@ type SCTP struct {
 	parked int
 	writes []SCTPWriteRec
 	NoInfo bool // deliver chunks without SndRcvInfo (socket not set up for it)
+	// WriteFault, when set, is asked before every SCTPWrite (call = 0-based index of the call);
+	// a non-nil error makes that call fail without sending anything.
+	WriteFault func(call int, stream uint16) error
+	wcalls     int
 }
 
 // NewSCTP creates an empty backend.
@@ -102,6 +106,17 @@ func (s *SCTP) SCTPWrite(b []byte, info *sctp.SndRcvInfo) (int, error) {
 	defer s.mu.Unlock()
 	if s.closed {
 		return 0, ErrClosed
+	}
+	call := s.wcalls
+	s.wcalls++
+	if s.WriteFault != nil {
+		st := uint16(0)
+		if info != nil {
+			st = info.Stream
+		}
+		if err := s.WriteFault(call, st); err != nil {
+			return 0, err
+		}
 	}
 	r := SCTPWriteRec{Data: append([]byte{}, b...)}
 	if info != nil {
